@@ -12,7 +12,8 @@ EXPLANATION = (
     "basics' unit vectors with the same fallibility and otherwise the same parsed payload — extracted by partially evaluating the "
     "three name tables (type level 24 names, member level 21 + ghost/ghosts, nested-parent 12) for every name — and (R2) every "
     "consumer reads instructions only per kind through `applicable_to[kind]` (all reads of applicable_to are enumerated; raw "
-    "iterations over ghost vectors that ignore it are reported). R3: every attribute name registered on the derive is recognised.")
+    "iterations over ghost vectors that ignore it are reported). R3: every attribute name registered on the derive is recognised. "
+    " R4 imports the lookup contracts (a written-out pair is several entries, the shortcut one).")
 NOT_DECIDED = ["token equality of the two expansions as such (follows only to the extent that all consumers are per-kind, which R2 enumerates)"]
 
 EXPANSION = {
@@ -268,7 +269,7 @@ def run(chk):
     # a shortcut yields one entry, its written-out basics several: both give the same conversions only if the lookups pick, among
     # several entries of one member, the first that is dedicated AND applicable to the kind (contract decided in C05.R3)
     from .c05 import import_lookup_contracts
-    chk.guard("R4", lambda: import_lookup_contracts(chk, "R4", ["ghost", "ghosts_attr", "field_attr", "field_attr_core"], with_chain=False,
+    chk.guard("R4", lambda: import_lookup_contracts(chk, "R4", ["ghost", "ghosts_attr", "field_attr", "field_attr_core"], with_chain=True,
                                                     desc="lookups resolve a written-out pair (several entries) like the single shortcut entry: first dedicated-and-applicable, else first applicable default"))
     chk.guard("R1", lambda: r1(chk))
     chk.guard("R1", lambda: type_hint_contract(chk, "R1"))
